@@ -80,6 +80,12 @@ pub fn features() -> Vec<(&'static str, Box<dyn Fn(&mut Model) -> bool + Sync>)>
     v.push(("route-ws-only", Box::new(|m| { m.routes.push(r(&["/ws"], Kind::WsOnly, Some("localhost:1234"))); true })));
     v.push(("route-multi", Box::new(|m| { m.routes.push(r(&["/static/*", "/images/*", "/i"], Kind::Directory("/var/static".into()), None)); true })));
     v.push(("route-file+ws", Box::new(|m| { m.routes.push(r(&["/both"], Kind::File("/var/b".into()), Some("127.0.0.1:9"))); true })));
+    // multi-pattern routes of every other type: each pattern must become a route of that same type
+    v.push(("route-multi-file", Box::new(|m| { m.routes.push(r(&["/f1", "/f2"], Kind::File("/var/f.html".into()), None)); true })));
+    v.push(("route-multi-file+ws", Box::new(|m| { m.routes.push(r(&["/g1", "/g2", "/g3"], Kind::File("/var/g.html".into()), Some("127.0.0.1:7"))); true })));
+    v.push(("route-multi-proxy", Box::new(|m| { m.routes.push(r(&["/p1/*", "/p2/*"], Kind::Proxy(vec!["127.0.0.1:8000".into(), "127.0.0.1:8001".into()], Some("random")), None)); true })));
+    v.push(("route-multi-redirect", Box::new(|m| { m.routes.push(r(&["/r1", "/r2"], Kind::Redirect("/".into()), None)); true })));
+    v.push(("route-multi-ws-only", Box::new(|m| { m.routes.push(r(&["/w1", "/w2"], Kind::WsOnly, Some("localhost:1"))); true })));
     v
 }
 
@@ -521,7 +527,7 @@ fn nonascii(s: &mut Stats, names: &[&str], main: &str) {
 }
 
 pub fn run(mut cx: Ctx) -> ! {
-    cx.rule = "every subset of <= 2 (3) features from a 30-entry menu (address, port, threads, timeout, websocket, blacklist file/mode, log level/console/file, cache size in 6 spellings, cache time, hosts quoted/unquoted/empty, routes of all five types incl. multi-pattern, proxy target lists, balancer modes) is rendered in 12 layouts (indentation, comment placement, blank lines, reversed key/section order, sections moved to included files at depth 1 and 2) and loaded with parse_conf + Config::from_tree; the result is compared with the model field by field; every single-fault mutant of every line of three layouts (missing brace, missing value, abc for a number, nonexistent unit, unterminated quote, bad enum word, not a boolean, port/threads out of range), in the main and in included files, must be rejected, naming file and line for syntax faults; a 2-byte and a 4-byte character are inserted at every position (no panic); states = models, transitions = loads; non-trivial = models with >= 2 features and all fault mutants".into();
+    cx.rule = "every subset of <= 2 (3) features from a 35-entry menu (address, port, threads, timeout, websocket, blacklist file/mode, log level/console/file, cache size in 6 spellings, cache time, hosts quoted/unquoted/empty, routes of all five types incl. multi-pattern, proxy target lists, balancer modes) is rendered in 12 layouts (indentation, comment placement, blank lines, reversed key/section order, sections moved to included files at depth 1 and 2) and loaded with parse_conf + Config::from_tree; the result is compared with the model field by field; every single-fault mutant of every line of three layouts (missing brace, missing value, abc for a number, nonexistent unit, unterminated quote, bad enum word, not a boolean, port/threads out of range), in the main and in included files, must be rejected, naming file and line for syntax faults; a 2-byte and a 4-byte character are inserted at every position (no panic); states = models, transitions = loads; non-trivial = models with >= 2 features and all fault mutants".into();
     let feats = features();
     let k = cx.pick(3, 4);
     cx.bound("features_per_model", k);
